@@ -220,6 +220,12 @@ func opShortBytes(v []byte) wop {
 func opIntBytes(v []byte) wop {
 	return wop{"WriteIntBytes", func(o *gio.DataOutputX) { o.WriteIntBytes(v) }, func(b *refenc.B) { b.IntBytes(v) }, func(in *gio.DataInputX) interface{} { return in.ReadIntBytes() }, v}
 }
+
+// opIntBytesLimit reads the int-length bytes back with the size-limited reader, the limit being the
+// payload length plus slack (a payload of exactly the limit is within it).
+func opIntBytesLimit(v []byte, slack int) wop {
+	return wop{fmt.Sprintf("WriteIntBytes/ReadIntBytesLimit(len+%d)", slack), func(o *gio.DataOutputX) { o.WriteIntBytes(v) }, func(b *refenc.B) { b.IntBytes(v) }, func(in *gio.DataInputX) interface{} { return in.ReadIntBytesLimit(len(v) + slack) }, v}
+}
 func opBytes(v []byte) wop {
 	return wop{"WriteBytes", func(o *gio.DataOutputX) { o.WriteBytes(v) }, func(b *refenc.B) { b.Raw(v) }, func(in *gio.DataInputX) interface{} { return in.ReadBytes(int32(len(v))) }, v}
 }
@@ -359,6 +365,9 @@ func (r *runner) blobs() {
 			b := content(kind, n)
 			r.one(opBlob(b), n > 0)
 			r.one(opIntBytes(b), n > 0)
+			for _, slack := range []int{0, 1, 1 << 20} {
+				r.one(opIntBytesLimit(b, slack), n > 0)
+			}
 			r.one(opBytes(b), n > 0)
 			if n <= 65535 {
 				r.one(opShortBytes(b), n > 0)
@@ -525,7 +534,7 @@ func programAlphabet() []wop {
 	return []wop{
 		opBool(true), opByte(0x80), opShort(-2), opUShort(0xfffe), opInt3(-8388608), opInt(math.MinInt32), opLong5(0x7fffffffff), opLong(math.MinInt64),
 		opFloat(float32(math.Inf(-1))), opDouble(math.Float64frombits(0x7ff0000000000001)), opDecimal(0), opDecimal(-129), opDecimal(8388608), opDecimal(1 << 40),
-		opBlob(nil), opBlob(content("count", 254)), opText("한a"), opTextShort("xy"), opShortBytes([]byte{1, 2, 3}), opIntBytes([]byte{9}),
+		opBlob(nil), opBlob(content("count", 254)), opText("한a"), opTextShort("xy"), opShortBytes([]byte{1, 2, 3}), opIntBytes([]byte{9}), opIntBytesLimit([]byte{7, 8}, 0),
 		opShortArr([]int16{-1, 2}), opIntArr([]int32{1, -1}), opLongArr([]int64{math.MinInt64}), opFloatArr([]float32{1.5}), opTextArr([]string{"", "b"}),
 		opWriteOff([]byte{1, 2, 3, 4, 5}, 1, 3),
 	}
